@@ -610,6 +610,59 @@ fn lock_identity_after_clone_from() {
     }
 }
 
+/// Handles CREATED while replacements are in flight: one thread replaces continuously (keeping the
+/// last few maps alive, as snapshot holders would), another clones fresh handles and - holding the
+/// update lock, so that no replacement can be in flight and every earlier one has completed -
+/// compares what the fresh handle shows with what the original handle shows.
+fn fresh_handles_during_replacements(clones: u64) {
+    use std::sync::atomic::{AtomicBool, Ordering};
+    let mk = |n: u64| -> Map {
+        let regs: Vec<(GuestAddress, usize)> = (0..n).map(|i| (GuestAddress(0x10_0000 * (i + 1)), 0x1000)).collect();
+        Map::from_ranges(&regs).expect("map")
+    };
+    let at = GuestMemoryAtomic::new(mk(1));
+    let stop = Arc::new(AtomicBool::new(false));
+    let upd = {
+        let (at, stop) = (at.clone(), stop.clone());
+        let pool: Vec<Map> = (1..=6).map(mk).collect();
+        std::thread::spawn(move || {
+            let mut keep: std::collections::VecDeque<_> = std::collections::VecDeque::new();
+            let mut k = 0u64;
+            while !stop.load(Ordering::Relaxed) {
+                keep.push_back(at.memory());
+                if keep.len() > 8 {
+                    keep.pop_front();
+                }
+                // a fresh map object each time (clones of a map share regions, not identity)
+                at.lock().unwrap().replace(pool[(k % 6) as usize].clone());
+                k += 1;
+            }
+            k
+        })
+    };
+    let mut stale = None;
+    for i in 0..clones {
+        let h = at.clone();
+        let g = at.lock().unwrap();
+        let (a, b) = (h.memory(), at.memory());
+        let same = a.num_regions() == b.num_regions() && a.iter().zip(b.iter()).all(|(x, y)| std::ptr::eq(x, y));
+        drop(g);
+        if !same {
+            stale = Some((i, a.num_regions(), b.num_regions()));
+            break;
+        }
+    }
+    stop.store(true, Ordering::Relaxed);
+    let replacements = upd.join().unwrap_or(0);
+    if let Some((i, seen, current)) = stale {
+        v("fresh-handle/shows-an-older-map-after-the-replacement-completed", jobj! {"clone_number" => i, "regions_seen_through_the_fresh_handle" => seen, "regions_of_the_current_map" => current, "replacements_so_far" => replacements});
+    }
+    out::key("fresh-handles-during-replacements", true);
+    out::count("fresh_handles_checked", clones as i128);
+    out::count("replacements_while_cloning", replacements as i128);
+    out::eval(clones);
+}
+
 /// Very long update histories on one replaceable memory (counters wrap at 2^16): after EVERY one
 /// of 2^16 + 2^15 completed replacements the next snapshot shows the map just installed (the maps
 /// alternate between two and three regions, so a single skipped or stale publication is visible).
@@ -674,6 +727,11 @@ pub fn run(args: &Args) {
         if !cfg!(miri) {
             if let Err(p) = guarded(replacement_aliasing_the_same_memory) {
                 v(&format!("panic/alias/{}", panic_sig(&p)), J::s(p));
+            }
+        }
+        if !cfg!(miri) {
+            if let Err(p) = guarded(|| fresh_handles_during_replacements(args.u64("fresh", 1_500_000))) {
+                v(&format!("panic/fresh-handles/{}", panic_sig(&p)), J::s(p));
             }
         }
         if let Err(p) = guarded(lock_identity_after_clone_from) {
